@@ -45,6 +45,10 @@ var fns = []Fn{
 	{"failing_testA", "func failing_testA() bool {\n\treturn false\n}\n", "failing_testA"},
 	{"decoyComment", "/*\nfunc testInComment() bool {\n\treturn true\n}\n*/\n", ""},
 	{"decoyRaw", "var doc = `\nfunc testInRaw() bool {\n`\n", ""},
+	{"testInfixFailing", "func testRead_failing_disk() bool {\n\treturn true\n}\n", "testRead_failing_disk"},
+	{"infixTest", "func mytestX() bool {\n\treturn true\n}\n", ""},
+	{"decoyIndentComment", "/*\n\tfunc testIndentedInComment() bool {\n\t\treturn true\n\t}\n*/\n", ""},
+	{"decoyIndentRaw", "var doc2 = `\n    func testIndentedInRaw() bool {\n`\n", ""},
 	{"testLong", "func testWith2Words() bool {\n\treturn helper2()\n}\n\nfunc helper2() bool {\n\treturn true\n}\n", "testWith2Words"},
 }
 
@@ -72,7 +76,7 @@ func (d Dir) ID() string {
 	return fmt.Sprintf("a[%s]b[%s]extra=%s", n(d.F1), n(d.F2), d.Extra)
 }
 
-var extras = []string{"none", "x_test.go", "x.gold.v", "x.go~", "subdir", "README.md", "zz.txt"}
+var extras = []string{"none", "x_test.go", "x.gold.v", "x.go~", "subdir", "README.md", "zz.txt", "symlink"}
 
 func (d Dir) files() map[string]string {
 	out := map[string]string{}
@@ -106,6 +110,9 @@ func (d Dir) files() map[string]string {
 		out["README.md"] = "# notes\n\nfunc testInReadme() bool {\n"
 	case "zz.txt":
 		out["zz.txt"] = "func failing_testInTxt() bool {\n"
+	case "symlink":
+		// runDir makes s.go a symbolic link to a file outside the directory (go list and the compiler follow it)
+		out["s.go"] = "package semantics\n\nfunc testViaSymlink() bool {\n\treturn true\n}\n"
 	}
 	return out
 }
@@ -263,6 +270,16 @@ func runDir(bin, root string, d Dir) result {
 	for n, c := range d.files() {
 		p := filepath.Join(dir, n)
 		os.MkdirAll(filepath.Dir(p), 0755)
+		if d.Extra == "symlink" && n == "s.go" {
+			shared := dir + ".shared"
+			os.MkdirAll(shared, 0755)
+			defer os.RemoveAll(shared)
+			os.WriteFile(filepath.Join(shared, "s.go"), []byte(c), 0644)
+			if err := os.Symlink(filepath.Join(shared, "s.go"), p); err != nil {
+				return result{kind: "HARNESS", msg: err.Error()}
+			}
+			continue
+		}
 		os.WriteFile(p, []byte(c), 0644)
 	}
 	want, err := expected(dir)
@@ -545,7 +562,7 @@ func main() {
 	os.RemoveAll(root)
 	os.Exit(acc.Done(ev.Finish{
 		Prop: "C18", Tier: *tier, Level: "exploration", Start: start,
-		Rule:        "all package directories with a.go holding every sequence of <=2 (thorough <=3) distinct items of a 13-item function-header alphabet (plain, failing_, disabled_, helper, method, digit suffix, capital T, underscore and non-ASCII suffix, failing_ twin of a plain test, line-anchored decoys inside a block comment and a raw string, multi-word), the first file also under 6 names that share a prefix or suffix with filtered names (latest.go, a.gold.go, gold.v.go, test_util.go, a_testing.go, a~b.go); optionally b.go with <=1 (thorough <=2) further items, x one extra entry {none, x_test.go, x.gold.v, x.go~, sub-directory, README.md, zz.txt} each holding a decoy header; the real test_gen binary run in -coq and -go mode; reference = go/parser over the non-test .go files in name order; oracles: Coq list == Go list == reference (order and Fail marking), method names unique, distinct generated Go files compiled against their package with go vet; evaluations = test_gen runs; non-trivial = directory with at least one test function",
+		Rule:        "all package directories with a.go holding every sequence of <=2 (thorough <=3) distinct items of a 17-item function-header alphabet (plain, failing_, disabled_, helper, method, digit suffix, capital T, underscore and non-ASCII suffix, failing_ twin of a plain test, failing_ and test as infixes, column-0 and indented decoys inside a block comment and a raw string, multi-word), the first file also under 6 names that share a prefix or suffix with filtered names (latest.go, a.gold.go, gold.v.go, test_util.go, a_testing.go, a~b.go); optionally b.go with <=1 (thorough <=2) further items, x one extra entry {none, x_test.go, x.gold.v, x.go~, sub-directory, README.md, zz.txt} each holding a decoy header, or a .go file that is a symbolic link to a file elsewhere (a real source file of the package); the real test_gen binary run in -coq and -go mode; reference = go/parser over the non-test .go files in name order; oracles: Coq list == Go list == reference (order and Fail marking), method names unique, distinct generated Go files compiled against their package with go vet; evaluations = test_gen runs; non-trivial = directory with at least one test function",
 		Assumptions: []string{"a semantics package is gofmt-formatted and its test…/failing_test… functions have signature func() bool", "functions named exactly `test` are outside the alphabet"},
 		Extra:       map[string]any{"distinct_nontrivial": len(acc.Sets["nontrivial"])},
 	}))
